@@ -1,10 +1,19 @@
-"""Bounded stand-in for C04 (see bounded/edits.py)."""
+"""Bounded stand-in for C04 (see bounded/edits.py), plus the constructed reference documents of C11: when the edited
+path holds a reference, "only the addressed binding changes" means only the binding that defines the name (the expected
+text is known by construction there)."""
+from bounded import b_c11
 from bounded import edits as E
 
 
 def run(tier, seed):
-    return E.run_edits("C04", tier, seed)
+    r = E.run_edits("C04", tier, seed)
+    refs = b_c11.run_single(tier, seed)
+    for v in refs["violations"]:
+        v["what"] = v["what"].replace("C11", "C04", 1)
+    return E.merge(r, refs)
 
 
 def replay(v):
+    if "case" in v["inputs"]:
+        return b_c11.replay(v)
     return E.replay_edit("C04", v)
